@@ -131,7 +131,7 @@ RootOf(n) == <<ND(n), 1, 0>>
 
 (* ---- the evaluator --------------------------------------------------------------------------- *)
 RECURSIVE Eval(_, _), EvalSteps(_, _, _, _), StepFrom(_, _, _), FilterSeq(_, _, _, _), PredHolds(_, _, _, _, _),
-          EvalFn(_, _), EvalArgs(_, _, _), Matches(_, _, _), KeyNodes(_, _, _, _)
+          EvalFn(_, _), EvalXfn(_, _), EvalArgs(_, _, _), Matches(_, _, _), KeyNodes(_, _, _, _)
 
 (* does predicate p hold for node x at position k of n in context c?  "t" / "f" / "unm" / "err" *)
 PredHolds(p, x, k, n, c) ==
@@ -231,6 +231,80 @@ EvalFn(e, c) ==
                              NS(KeyNodes(strArg(1), vals, ND(c.n), c))
     [] OTHER              -> ErrV
 
+(* ---- the bundled extension functions: EXSLT sets / math / common / strings and xalan: ---------- *)
+(* (published definitions at exslt.org; lib is the library the function's namespace URI names)        *)
+NodeNums(F, S) == {<<x, StrToNum(StringValue(F, x))>> : x \in S}
+Repeat(pad, n) == [k \in 1..n |-> pad[((k - 1) % Len(pad)) + 1]]
+StrNodeSet == <<110, 111, 100, 101, 45, 115, 101, 116>>     StrString == <<115, 116, 114, 105, 110, 103>>
+StrNumber == <<110, 117, 109, 98, 101, 114>>                 StrBoolean == <<98, 111, 111, 108, 101, 97, 110>>
+StrRTF == <<82, 84, 70>>
+EvalXfn(e, c) ==
+  LET F == c.f
+      a == EvalArgs(e.args, 1, c)
+      nargs == Len(e.args)
+      isNs(i) == i <= nargs /\ a[i].t = "ns"
+      first(S) == FirstInDocOrder(S)
+      lib == IF e.lib = "xalan" THEN "set" ELSE e.lib
+      name == e.name
+  IN
+  IF AnyBad(a) THEN BadOf(a)
+  ELSE IF e.lib = "xalan" /\ e.name = "hasSameNodes" THEN       \* xalan: "true if both node-sets contain exactly the same set of nodes"
+       (IF nargs # 2 \/ ~isNs(1) \/ ~isNs(2) THEN ErrV ELSE BV(a[1].v = a[2].v))
+  ELSE IF lib = "set" THEN
+       (IF name = "distinct" THEN
+             IF nargs # 1 \/ ~isNs(1) THEN ErrV
+             ELSE NS({x \in a[1].v : \A y \in a[1].v : (StringValue(F, y) = StringValue(F, x)) => (y = x \/ Before(x, y))})
+        ELSE IF nargs # 2 \/ ~isNs(1) \/ ~isNs(2) THEN ErrV
+        ELSE CASE name = "difference"    -> NS(a[1].v \ a[2].v)
+               [] name = "intersection"  -> NS(a[1].v \cap a[2].v)
+               [] name = "has-same-node" -> BV(a[1].v \cap a[2].v # {})
+               [] name = "leading"  -> IF a[2].v = {} THEN a[1]
+                                       ELSE IF first(a[2].v) \notin a[1].v THEN NS({})
+                                       ELSE NS({x \in a[1].v : Before(x, first(a[2].v))})
+               [] name = "trailing" -> IF a[2].v = {} THEN a[1]
+                                       ELSE IF first(a[2].v) \notin a[1].v THEN NS({})
+                                       ELSE NS({x \in a[1].v : Before(first(a[2].v), x)})
+               [] OTHER -> ErrV)
+  ELSE IF lib = "math" THEN
+       (IF name = "abs" THEN (IF nargs # 1 THEN ErrV ELSE LET x == ToNumX(F, a[1]) IN NV(IF IsFin(x) \/ IsInf(x) THEN [x EXCEPT !.neg = FALSE] ELSE x))
+        ELSE IF nargs # 1 \/ ~isNs(1) THEN ErrV
+        ELSE LET P == NodeNums(F, a[1].v)
+                 nums == {p[2] : p \in P}
+                 anyNaN == \E x \in nums : IsNaN(x)
+                 lo == CHOOSE x \in nums : \A y \in nums : NumLe(x, y)
+                 hi == CHOOSE x \in nums : \A y \in nums : NumLe(y, x)
+             IN IF \E x \in nums : IsUnm(x) THEN UnmV
+                ELSE CASE name = "min" -> NV(IF nums = {} \/ anyNaN THEN NaN ELSE lo)
+                       [] name = "max" -> NV(IF nums = {} \/ anyNaN THEN NaN ELSE hi)
+                       [] name = "lowest"  -> NS(IF nums = {} \/ anyNaN THEN {} ELSE {p[1] : p \in {q \in P : NumEq(q[2], lo)}})
+                       [] name = "highest" -> NS(IF nums = {} \/ anyNaN THEN {} ELSE {p[1] : p \in {q \in P : NumEq(q[2], hi)}})
+                       [] OTHER -> ErrV)
+  ELSE IF lib = "exsl" THEN
+       (IF name = "object-type" /\ nargs = 1
+        THEN SV(CASE a[1].t = "ns" -> StrNodeSet [] a[1].t = "str" -> StrString [] a[1].t = "num" -> StrNumber
+                  [] a[1].t = "bool" -> StrBoolean [] OTHER -> StrRTF)
+        ELSE ErrV)
+  ELSE IF lib = "str" THEN
+       (CASE name = "concat" -> IF nargs # 1 \/ ~isNs(1) THEN ErrV
+                                ELSE LET sq == DocOrderSeq(a[1].v) IN SV(FlattenSeq([k \in 1..Len(sq) |-> StringValue(F, sq[k])]))
+          [] name = "padding" -> IF nargs \notin {1, 2} THEN ErrV
+                                 ELSE LET n == ToNumX(F, a[1])
+                                          pad == IF nargs = 2 THEN ToStr(F, a[2]) ELSE <<32>> IN
+                                      IF IsUnm(n) THEN UnmV
+                                      ELSE IF IsFin(n) /\ n.m % Scale # 0 THEN UnmV         \* a fractional length is not defined by EXSLT
+                                      ELSE IF ~IsFin(n) \/ n.neg \/ n.m < Scale \/ pad = <<>> THEN SV(<<>>)
+                                      ELSE IF n.m \div Scale > 200 THEN UnmV
+                                      ELSE SV(Repeat(pad, n.m \div Scale))
+          [] name = "align" -> IF nargs \notin {2, 3} THEN ErrV
+                               ELSE LET str == ToStr(F, a[1])   pad == ToStr(F, a[2])
+                                        how == IF nargs = 3 THEN ToStr(F, a[3]) ELSE <<108, 101, 102, 116>> IN
+                                    IF Len(str) >= Len(pad) THEN SV(SubSeq(str, 1, Len(pad)))
+                                    ELSE IF how = <<114, 105, 103, 104, 116>> THEN SV(SubSeq(pad, 1, Len(pad) - Len(str)) \o str)
+                                    ELSE IF how = <<99, 101, 110, 116, 101, 114>> THEN UnmV          \* 'center': the split of an odd remainder is not specified
+                                    ELSE SV(str \o SubSeq(pad, Len(str) + 1, Len(pad)))
+          [] OTHER -> ErrV)
+  ELSE ErrV
+
 Arith(o, x, y) == CASE o = "+" -> Add(x, y) [] o = "-" -> Sub(x, y) [] o = "*" -> Mul(x, y)
                     [] o = "div" -> Div(x, y) [] o = "mod" -> Mod(x, y)
 
@@ -240,6 +314,7 @@ Eval(e, c) ==
     [] e.op = "var" -> IF e.name \in DOMAIN c.vars THEN c.vars[e.name] ELSE ErrV
     [] e.op = "neg" -> LET v == Eval(e.a, c) IN IF Bad(v) THEN v ELSE NV(Neg(ToNumX(c.f, v)))
     [] e.op = "fn"  -> EvalFn(e, c)
+    [] e.op = "xfn" -> EvalXfn(e, c)
     [] e.op = "bin" ->
          IF e.o = "or" THEN
               LET l == Eval(e.a, c) IN
